@@ -339,4 +339,6 @@ package knx
 //@   requires conn.sock != nil
 //@   ensures [nat] !(conn.config.SendLocalAddress && !conn.config.UseTCP) && err == nil ==> info.Address[0] == 0 && info.Address[1] == 0 && info.Address[2] == 0 && info.Address[3] == 0 && info.Port == 0 && (info.Protocol == knxnet.UDP4 || info.Protocol == knxnet.TCP4)
 //@   ensures [local] conn.config.SendLocalAddress && !conn.config.UseTCP && err == nil ==> info.Protocol == knxnet.UDP4 || info.Protocol == knxnet.TCP4
+//@   ensures [code] !(conn.config.SendLocalAddress && !conn.config.UseTCP) && err == nil ==> (info.Protocol == knxnet.TCP4 <==> network(localaddr(conn.sock)) == "tcp") && (info.Protocol == knxnet.UDP4 <==> network(localaddr(conn.sock)) == "udp")
+//@   ensures [known-network] !(conn.config.SendLocalAddress && !conn.config.UseTCP) ==> (err == nil <==> network(localaddr(conn.sock)) == "tcp" || network(localaddr(conn.sock)) == "udp")
 //@   assigns nothing
